@@ -130,6 +130,9 @@ func layoutURL(class string, d int, prefix, rootFile string) string {
 		return p + "/v/b" + n + ".json"
 	case "remote":
 		return "http://h.example/x/b" + n + ".json"
+	case "remoteq":
+		// a location with a query: the query is part of the document's identity
+		return "http://h.example/x/b" + n + ".json?v=2"
 	case "prefixfile":
 		return p + "/w/r/" + rootFile + "x" + n
 	case "prefixdir":
@@ -304,6 +307,8 @@ func concretise(c *expCase) (*concrete, error) {
 			cc.docs[d]["x-bad-number"] = 1
 			cc.docs[d]["x-bad-bool"] = true
 			cc.docs[d]["x-bad-array"] = []interface{}{1}
+			cc.docs[d]["x-bad-null"] = nil
+			cc.docs[d]["x-bad-emptyobj"] = map[string]interface{}{}
 		}
 	}
 	// 1. pointer tokens of every node (owners have smaller indices)
@@ -461,17 +466,24 @@ func idFor(class string, i int) string {
 
 var faultClasses = []string{"noptr", "nodoc", "string", "number", "bool", "array"}
 
+// oddTargets (-oddtargets): targets that exist but are not objects of the expected kind in a way
+// the error discipline (C08) says nothing about: JSON null, an empty object
+var oddTargetClasses = []string{"null", "emptyobj"}
+
 func danglingRef(cc *concrete, c *expCase, i int) string {
 	a := c.Nodes[i-1]
 	sec := sectionOf(a.Kind)
 	fault := a.Fault
 	if fault == "" {
 		fault = faultClasses[(c.Rot+i)%len(faultClasses)]
+		if expFlags.oddTargets {
+			fault = oddTargetClasses[(c.Rot+i)%len(oddTargetClasses)]
+		}
 	}
 	switch fault {
 	case "nodoc":
 		return "missing" + strconv.Itoa(i) + ".json#/" + sec + "/X"
-	case "string", "number", "bool", "array":
+	case "string", "number", "bool", "array", "null", "emptyobj":
 		return "#/x-bad-" + fault
 	}
 	return "#/" + sec + "/Missing" + strconv.Itoa(i)
@@ -573,16 +585,17 @@ func (l *recLoader) load(u string) (json.RawMessage, error) {
 }
 
 var expFlags struct {
-	layouts  string
-	opts     string
-	rots     string
-	names    string
-	spell    string
-	reps     int
-	entry    string
-	failsets string
-	caches   string
-	ids      string
+	layouts    string
+	opts       string
+	rots       string
+	names      string
+	spell      string
+	reps       int
+	entry      string
+	failsets   string
+	caches     string
+	ids        string
+	oddTargets bool
 }
 
 func init() {
@@ -597,6 +610,7 @@ func init() {
 			fs.StringVar(&expFlags.entry, "entry", "ExpandSpec", "entry point")
 			fs.StringVar(&expFlags.failsets, "failsets", "none", "comma list of sets (a+b) of documents the loader refuses")
 			fs.StringVar(&expFlags.caches, "caches", "none", "comma list of cache modes: none,fresh,reuse,preload:0+1")
+			fs.BoolVar(&expFlags.oddTargets, "oddtargets", false, "dangling refs point at JSON null / an empty object instead (C04 only)")
 			fs.StringVar(&expFlags.ids, "ids", "", "comma list of id classes given (in rotation) to the structured schemas: abs,relfile,reldir,frag")
 		},
 		run:     expRun,
